@@ -65,7 +65,7 @@ def run(ctx: Ctx):
     col.floor("repair_flag_sets", len(sets), 6)
     for s in sets:
         gs = guards_of(pm, s)
-        ok = any(pol and _has_conjunct(t, "fix is not None") for t, pol in gs)
+        ok = _fix_permitted(gs)
         col.ob("G10", "S1", f"{where}::repair@[{_guard_key(gs)}]::needs-fix-permission", ok,
                f"a repair is scheduled (`{flag} = True`) on a branch not guarded by `fix is not None`: the "
                f"directory would be modified by a plain validation", rel, s.lineno,
@@ -91,7 +91,7 @@ def run(ctx: Ctx):
                 if not under_validate:
                     continue
                 nmut += 1
-                ok = any(pol and _has_conjunct(tt, "fix is not None") for tt, pol in gs)
+                ok = _fix_permitted(gs)
                 col.ob("G10", "S1", f"{where}::mutation({u(t)})::needs-fix-permission", ok,
                        f"`{u(n)}` changes a stored tensor during validation outside a `fix is not None` branch",
                        rel, n.lineno, sample=u(n))
@@ -229,14 +229,17 @@ def run(ctx: Ctx):
         b = bind_args(c, f, False)
         got = {p.name: a for p, a, _ in b.pairs}
         va = got.get("validate")
-        parts = set()
-        if isinstance(va, ast.BoolOp) and isinstance(va.op, ast.Or):
-            parts = {u(x) for x in va.values}
         ov = None
         for n in own_nodes(cli.node):
             if isinstance(n, ast.Assign) and isinstance(n.value, ast.Call) and isinstance(n.value.func, ast.Attribute) \
                     and n.value.func.attr == "parse_args" and isinstance(n.targets[0], ast.Name):
                 ov = n.targets[0].id
+        from sa.inline import Inliner as _InlC
+        inl_c = _InlC(cli.node, keep={ov} if ov else ())
+        va = inl_c.expand(va) if va is not None else None  # `do_validate = options.strict or ...`
+        parts = set()
+        if isinstance(va, ast.BoolOp) and isinstance(va.op, ast.Or):
+            parts = {u(x) for x in va.values}
         ok = parts == {f"{ov}.strict", f"{ov}.fix is not None"} and u(got.get("info")) == "True" \
             and u(got.get("fix")) == f"{ov}.fix"
         col.ob("G1", "S5", "command_line.py::get_torch_spect_data_dir_info::_info_and_validate-binding", ok,
@@ -281,6 +284,20 @@ def _has_conjunct(t: ast.expr, text: str) -> bool:
     if isinstance(t, ast.BoolOp) and isinstance(t.op, ast.And):
         return any(_has_conjunct(v, text) for v in t.values)
     return False
+
+
+def _has_disjunct(t: ast.expr, text: str) -> bool:
+    if u(t) == text:
+        return True
+    if isinstance(t, ast.BoolOp) and isinstance(t.op, ast.Or):
+        return any(_has_disjunct(v, text) for v in t.values)
+    return False
+
+
+def _fix_permitted(gs) -> bool:
+    """Is the guarded node only reached when a fix tolerance was given? `fix is not None` (as a conjunct) on the true arm, or
+    `fix is None` (as a disjunct) on the false arm."""
+    return any((pol and _has_conjunct(t, "fix is not None")) or (not pol and _has_disjunct(t, "fix is None")) for t, pol in gs)
 
 
 def _guard_key(gs) -> str:
@@ -450,27 +467,37 @@ def _s6(ctx, rel):
             sl = n.value.slice
             bound = sl.lower if sym == "sos" else sl.upper
             other = sl.upper if sym == "sos" else sl.lower
-            der = rdw.derives(bound, max_depth=0) if bound is not None else None
+            # decided on the expansion of the slice bound (the index vector / the picked index may or may not carry names):
+            #   sos: <nonzero(.. == sos ..)>[-1].item() + 1        eos: <nonzero(.. == eos ..)>[0].item()
+            from sa.inline import Inliner
+            inl_w = Inliner(w.node, rdw)
+            bx = inl_w.expand(bound) if bound is not None else None
             pick = None
             uses = False
-            if der is not None:
-                for x in der.nodes():
-                    if isinstance(x, ast.Subscript) and isinstance(x.slice, (ast.Constant, ast.UnaryOp)) \
-                            and isinstance(x.value, ast.Name) and any(
-                                isinstance(d2.value, ast.Call) and call_name(d2.value) == "torch.nonzero"
-                                for d2 in rdw.defs_of(x.value)):
+            if bx is not None:
+                for x in ast.walk(bx):
+                    if isinstance(x, ast.Subscript) and isinstance(x.slice, (ast.Constant, ast.UnaryOp)) and (
+                            (isinstance(x.value, ast.Call) and call_name(x.value) == "torch.nonzero") or
+                            (isinstance(x.value, ast.Name) and any(isinstance(d2.value, ast.Call) and call_name(d2.value) == "torch.nonzero"
+                                                                   for d2 in inl_w.defs_of(x.value)))):
                         pick = u(x.slice)
-                for x in rdw.derives(bound, max_depth=3).nodes():
                     if isinstance(x, ast.Name) and x.id == sym:
                         uses = True
+                if not uses:
+                    uses = any(isinstance(x, ast.Name) and x.id == sym for x in rdw.derives(bound, max_depth=4).nodes())
+
+            def _is_pick(e):
+                while isinstance(e, ast.Call) and ((isinstance(e.func, ast.Attribute) and e.func.attr == "item" and not e.args)
+                                                   or (call_name(e) == "int" and len(e.args) == 1)):
+                    e = e.func.value if isinstance(e.func, ast.Attribute) else e.args[0]
+                return isinstance(e, ast.Subscript)
             if sym == "sos":
-                idxname = [nm.id for nm in ast.walk(bound) if isinstance(nm, ast.Name)] if bound is not None else []
-                shape_ok = bound is not None and other is None and isinstance(bound, ast.BinOp) \
-                    and isinstance(bound.op, ast.Add) and u(bound.right) == "1"
+                shape_ok = bx is not None and other is None and isinstance(bx, ast.BinOp) and isinstance(bx.op, ast.Add) and (
+                    (u(bx.right) == "1" and _is_pick(bx.left)) or (u(bx.left) == "1" and _is_pick(bx.right)))
                 ok = shape_ok and pick == "-1" and uses
                 msg = "hypotheses are not cut after the LAST start symbol (hyp[last_sos + 1:])"
             else:
-                shape_ok = bound is not None and other is None and isinstance(bound, ast.Name)
+                shape_ok = bx is not None and other is None and _is_pick(bx)
                 ok = shape_ok and pick == "0" and uses
                 msg = "hypotheses are not cut before the FIRST end symbol (hyp[:first_eos])"
             found[sym] = ok
@@ -788,16 +815,15 @@ def _deprecated_boolean_fix(ctx: Ctx):
     f = pkg.func("_datasets::validate_spect_data_set")
     rel = f.module.relname
     pm = parent_map(f.node)
-    sites = []
-    for n in own_nodes(f.node):
-        if isinstance(n, ast.Assign) and len(n.targets) == 1 and u(n.targets[0]) == "fix" and any(
-                pol and any(isinstance(x, ast.Name) and x.id == "fix" for x in ast.walk(t)) and (
-                    ("isinstance" in u(t) and "bool" in u(t)) or
-                    any(isinstance(x, ast.Constant) and isinstance(x.value, bool) for x in ast.walk(t))) for t, pol in guards_of(pm, n)):
-            sites.append(n)
-    if len(sites) != 1:
+    def _bool_guard(t):
+        return any(isinstance(x, ast.Name) and x.id == "fix" for x in ast.walk(t)) and (
+            ("isinstance" in u(t) and "bool" in u(t)) or any(isinstance(x, ast.Constant) and isinstance(x.value, bool) for x in ast.walk(t)))
+    blocks = [n for n in own_nodes(f.node) if isinstance(n, ast.If) and _bool_guard(n.test)
+              and any(isinstance(x, ast.Name) and x.id == "fix" and isinstance(x.ctx, ast.Store) for x in ast.walk(n))]
+    if len(blocks) != 1:
         col.undecided(f"{rel}::validate_spect_data_set: the boolean normalisation of `fix` was not recognised")
         return
+    sites = [blocks[0]]
 
     def ev(e, val):
         if isinstance(e, ast.Constant):
@@ -810,6 +836,10 @@ def _deprecated_boolean_fix(ctx: Ctx):
             return not ev(e.operand, val)
         if isinstance(e, ast.Call) and call_name(e) == "int" and len(e.args) == 1:
             return int(ev(e.args[0], val))
+        if isinstance(e, ast.Compare) and len(e.ops) == 1 and isinstance(e.ops[0], (ast.Is, ast.IsNot, ast.Eq, ast.NotEq)):
+            a_, b_ = ev(e.left, val), ev(e.comparators[0], val)
+            r_ = (a_ is b_) if isinstance(e.ops[0], (ast.Is, ast.IsNot)) else (a_ == b_)
+            return r_ if isinstance(e.ops[0], (ast.Is, ast.Eq)) else not r_
         if isinstance(e, ast.BoolOp):
             out = None
             for v in e.values:
@@ -818,14 +848,26 @@ def _deprecated_boolean_fix(ctx: Ctx):
                     return out
             return out
         raise ValueError(u(e))
+
+    def run_block(body, val):
+        for st in body:
+            if isinstance(st, ast.Assign) and len(st.targets) == 1 and u(st.targets[0]) == "fix":
+                val = ev(st.value, val)
+            elif isinstance(st, ast.If):
+                val = run_block(st.body if ev(st.test, val) else st.orelse, val)
+            elif isinstance(st, (ast.Expr, ast.Pass)):
+                continue
+            else:
+                raise ValueError(type(st).__name__)
+        return val
     try:
-        vt, vf = ev(sites[0].value, True), ev(sites[0].value, False)
+        vt, vf = run_block(blocks[0].body, True), run_block(blocks[0].body, False)
     except ValueError as ex:
-        col.undecided(f"{rel}::validate_spect_data_set: `{u(sites[0])}` is outside the evaluated fragment ({ex})")
+        col.undecided(f"{rel}::validate_spect_data_set: the boolean normalisation of `fix` is outside the evaluated fragment ({ex})")
         return
     ok = vf is None and isinstance(vt, int) and not isinstance(vt, bool) and vt >= 0
     col.ob("G12", "S10", f"{rel}::validate_spect_data_set::fix=False-means-strict", ok,
-           f"`{u(sites[0])}` maps fix=True to {vt!r} and fix=False to {vf!r}: False must become None (refuse), a tolerance of "
+           f"the block at line {sites[0].lineno} maps fix=True to {vt!r} and fix=False to {vf!r}: False must become None (refuse), a tolerance of "
            f"{vf!r} repairs the directory on disk instead", rel, sites[0].lineno, sample={"True": repr(vt), "False": repr(vf)})
 
 
